@@ -573,6 +573,34 @@ func runC07(r *engine.Run) {
 			}
 			c.Fail(key, fmt.Sprintf("%v: returned %s, model %s", x.PathNames(path), last, res[len(res)-1]), nil)
 		}
+		// the registry after the transition is exactly the model's (standard entries + registered ones)
+		m, _ := model(path)
+		var want strings.Builder
+		for _, e := range lorawan.VerifRegistrySnapshot() {
+			if byte(e.CID) < 0x80 {
+				fmt.Fprintf(&want, "%v:%02x:%d:%s;", e.Uplink, byte(e.CID), e.Size, e.Type)
+			}
+		}
+		got := snap()
+		var exp strings.Builder
+		for _, up := range []bool{false, true} {
+			for _, e := range lorawan.VerifRegistrySnapshot() {
+				if e.Uplink == up && byte(e.CID) < 0x80 {
+					fmt.Fprintf(&exp, "%v:%02x:%d:%s;", e.Uplink, byte(e.CID), e.Size, e.Type)
+				}
+			}
+			var cids []int
+			for cid := range m[up] {
+				cids = append(cids, int(cid))
+			}
+			sort.Ints(cids)
+			for _, cid := range cids {
+				fmt.Fprintf(&exp, "%v:%02x:%d:*lorawan.ProprietaryMACCommandPayload;", up, cid, m[up][byte(cid)])
+			}
+		}
+		if got != exp.String() {
+			c.Fail("registry/state-differs-from-model", fmt.Sprintf("after %v the registry is %s; model %s", x.PathNames(path), got, exp.String()), nil)
+		}
 		c.Outcome("registry/transition/" + last)
 	}
 	x.CheckState = func(c *engine.Case, _ interface{}, path []int) {
